@@ -110,6 +110,25 @@ Section Closure.
   Qed.
 End Closure.
 
+(* arccosine (WingboxGeometry): differentiable strictly inside (-1, 1) *)
+Lemma is_derive_acos x : -1 < x < 1 -> is_derive acos x (- / sqrt (1 - x * x)).
+Proof.
+  intros Hx. apply is_derive_Reals.
+  pose proof (derive_pt_acos x Hx) as Hd.
+  pose proof (proj2_sig (derivable_pt_acos x Hx)) as Hl. cbv beta in Hl.
+  unfold derive_pt in Hd. rewrite Hd in Hl.
+  replace (- / sqrt (1 - x * x)) with (-1 / sqrt (1 - x²)); [exact Hl|].
+  unfold Rsqr. field. apply Rgt_not_eq, sqrt_lt_R0. nra.
+Qed.
+Lemma DR_acos A t0 a : DR A t0 a -> -1 < A t0 < 1 -> DR (fun t => @oacos R Rops (A t)) t0 (@oacos _ DOPS a).
+Proof.
+  intros HA Hx. pose proof (DR_val _ _ _ HA) as va. pose proof (DR_der _ _ _ HA) as da.
+  split; cbn; [rewrite va; reflexivity|]. rewrite va.
+  pose proof (is_derive_comp (K := R_AbsRing) (V := R_NormedModule) acos A t0 _ _ (is_derive_acos _ Hx) da) as H.
+  match goal with |- is_derive _ _ ?d => replace d with (scal (snd a) (- / sqrt (1 - A t0 * A t0))); [exact H|] end.
+  unfold scal; cbn. unfold mult; cbn. field. apply Rgt_not_eq, sqrt_lt_R0. nra.
+Qed.
+
 (* ---- non-smooth operations: away from the switching point ---- *)
 Lemma DR_cont g t0 p : DR g t0 p -> continuous g t0.
 Proof. intros [_ H]. apply (ex_derive_continuous (K := R_AbsRing) (V := R_NormedModule)). eexists; exact H. Qed.
@@ -269,6 +288,7 @@ Ltac dr_step :=
   | |- DR (fun t => @ocos _ _ _) _ _ => apply DR_cos
   | |- DR (fun t => @otan _ _ _) _ _ => apply DR_tan
   | |- DR (fun t => @oatan _ _ _) _ _ => apply DR_atan
+  | |- DR (fun t => @oacos _ _ _) _ _ => apply DR_acos
   | |- DR (fun t => @oabs _ _ _) _ _ => apply DR_abs
   | |- DR (fun t => @opow _ _ _ _) _ _ => apply DR_pow
   | |- DR (fun t => @osq _ _ _) _ _ => apply DR_osq
